@@ -496,8 +496,8 @@ func TestCheck(t *testing.T) {
 	defer run.Finish()
 	run.Assume("archive node (every height retained); storage recorded live through Blockchain.SeekStorage is the reference")
 	run.Assume("read-only scripts are a fixed catalogue of native getters and helper-contract readers, not all scripts")
-	nh := ev.Pick(3, 9)
-	nb := ev.Pick(50, 120)
+	nh := ev.Pick(5, 9)
+	nb := ev.Pick(70, 120)
 	tier := ev.Tier()
 	w := vchain.DefaultWeights
 	w.Run, w.Deploy, w.Destroy, w.Update, w.Payment, w.Role = 30, 5, 3, 3, 8, 5
